@@ -122,6 +122,11 @@ Steps ==
         THEN {s \in {[op |-> "evo", o |-> a, o2 |-> b, del |-> d, det |-> FALSE] : a, b \in Objs, d \in EvoDels} : s.o # s.o2}
         ELSE {})
   \cup (IF "size" \in Global THEN {[op |-> "size", o |-> o, det |-> FALSE] : o \in Objs} ELSE {})
+  \* "touch": a read-only access to the submessage at NestAt (a getter: it makes a deferred lazy field decode, nothing else);
+  \* "marshalc": Size, then reading every field, then Marshal{UseCachedSize} - nothing was changed in between, so the cached
+  \* sizes may be used and the outcome must be that of Marshal (C16; K1)
+  \cup (IF "touch" \in Global /\ NestAt # 0 THEN {[op |-> "touch", o |-> o, at |-> <<NestAt>>] : o \in Objs} ELSE {})
+  \cup (IF "marshalc" \in Global THEN {[op |-> "marshalc", o |-> o, det |-> d, partial |-> TRUE] : o \in Objs, d \in BOOLEAN} ELSE {})
   \cup (IF "scribble" \in Global THEN {[op |-> "scribble", o |-> o] : o \in Objs} ELSE {})
   \cup (IF "umerge" \in Global THEN {s \in {[op |-> "umerge", o |-> a, o2 |-> b, nolazy |-> z] : a, b \in Objs, z \in BOOLEAN} : s.o # s.o2} ELSE {})
   \cup (IF "cat" \in Global /\ NObj >= 3
@@ -193,7 +198,7 @@ Emit == LET s == hist'[Len(hist')]
                                                \* non-minimal raw segments need only satisfy Size >= len(Marshal) (checked on traces)
                                                (IF \E k \in 1..Len(hist) : "nolazy" \in DOMAIN hist[k] /\ ~hist[k].nolazy THEN common
                                                 ELSE common @@ [lsize |-> ExpSize(s, objs)])
-                                          ELSE IF s.op = "marshal" THEN common @@ [lerr |-> MarshalErr(Type, objs[s.o + 1], s)]
+                                          ELSE IF s.op \in {"marshal", "marshalc"} THEN common @@ [lerr |-> MarshalErr(Type, objs[s.o + 1], s)]
                                           ELSE common @@ [lr |-> ExpResult(s, objs)]]))
 
 \* ---- specification-level laws
